@@ -20,7 +20,13 @@ const PackageSymbol = Symbol("package")
 // cl:require function.
 var CurrentPackageLoadPath = ""
 
-var packages []*Package
+var (
+	packages []*Package
+	// packagesMu protects the packages list and the *features* list that
+	// grows with it. Packages are made and deleted by any routine while
+	// others look names up.
+	packagesMu sync.RWMutex
+)
 
 // Package represents a LISP package.
 type Package struct {
@@ -61,8 +67,10 @@ func DefPackage(name string, nicknames []string, doc string) *Package {
 		classes:   map[string]Class{},
 		PreSet:    DefaultPreSet,
 	}
+	packagesMu.Lock()
 	packages = append(packages, &pkg)
 	addFeature(pkg.Name)
+	packagesMu.Unlock()
 
 	return &pkg
 }
@@ -77,19 +85,25 @@ func AddPackage(pkg *Package) {
 	if 0 < len(CurrentPackageLoadPath) {
 		pkg.loadPath = CurrentPackageLoadPath
 	}
+	packagesMu.Lock()
 	packages = append(packages, pkg)
 	addFeature(pkg.Name)
+	packagesMu.Unlock()
 }
 
 // RemovePackage deletes a package.
 func RemovePackage(pkg *Package) {
 	if pkg != nil {
+		packagesMu.Lock()
 		for i, p := range packages {
 			if pkg == p {
-				packages = append(packages[:i], packages[i+1:]...)
+				// A new list, a list handed out by AllPackages or being
+				// searched must not change.
+				packages = append(append(make([]*Package, 0, len(packages)), packages[:i]...), packages[i+1:]...)
 				break
 			}
 		}
+		packagesMu.Unlock()
 		// Unuse takes the package off the list that is walked here.
 		for _, u := range append([]*Package(nil), pkg.Uses...) {
 			pkg.Unuse(u)
@@ -820,9 +834,11 @@ func (obj *Package) LoadPath() string {
 
 // PackageNames returns a sorted list of package names.
 func PackageNames() (names List) {
+	packagesMu.RLock()
 	for _, pkg := range packages {
 		names = append(names, String(pkg.Name))
 	}
+	packagesMu.RUnlock()
 	sort.Slice(names,
 		func(i, j int) bool {
 			si := string(names[i].(String))
@@ -834,13 +850,17 @@ func PackageNames() (names List) {
 
 // AllPackages returns a list of all packages.
 func AllPackages() []*Package {
+	packagesMu.RLock()
 	pkgs := make([]*Package, len(packages))
 	copy(pkgs, packages)
+	packagesMu.RUnlock()
 	return pkgs
 }
 
 // FindPackage returns the package matching the provided name.
 func FindPackage(name string) *Package {
+	packagesMu.RLock()
+	defer packagesMu.RUnlock()
 	for _, pkg := range packages {
 		if strings.EqualFold(name, pkg.Name) {
 			return pkg
